@@ -178,10 +178,23 @@ def one(ctx, fam, i):
         if not rsel:
             effective = kw["select"][:-1]
         ctx.obs["signal_name_selected"] += 1
+    if "select" in kw and rng.random() < 0.4:
+        kw["select"] = tuple(kw["select"])  # a tuple of names means what the list means
+        ctx.obs["tuple_selects"] += 1
     fids = [f for f, ns in all_fids(spec).items() if ns["k"] == "fn"]
+    plain_inputs = sorted(k for k in provided if k not in data)
     for runner in ("sync", "async"):
         if runner == "sync" and any(ns["k"] == "int" for ns in spec["nodes"]):
             continue
+        if plain_inputs and rng.random() < 0.3:
+            # a plain input named in the run-time selection, in every accepted container form: rejected, or at least never returned
+            pin = rng.choice(plain_inputs)
+            for form in ([pin], (pin,), pin, [sorted(data)[0], pin] if data else [pin], tuple([sorted(data)[0], pin]) if data else (pin,)):
+                o = core.execute(built, provided, runner, select=form, error_handling="continue", max_iterations=100)
+                ctx.obs["input_name_selected_probes"] += 1
+                c2 = {**case, "provided": core.jsonable(provided), "select": core.jsonable(form)}
+                if o.exc is None and o.values is not None and pin in o.values:
+                    ctx.violation("C16:plain-input-returned", f"{runner}: select={form!r} returned the plain input {pin!r}: {core.short(o.values)}", c2)
         for rep in range(2 if cache is not None else 1):
             for fail in (None, ({rng.choice(fids): RuntimeError("boom")} if fids and rng.random() < 0.4 else None)):
                 sched = rt.Sched(default="rand", rng=rng) if runner == "async" else None
